@@ -37,8 +37,8 @@ RULE = ("one PRNG (SplitMix64 from the seed) generates HISTORIES of mutations ap
         "built by fill_args_at_p_with_hint (hints `_` or any position holding an op on that variable), clear-everything-then-refill "
         "episodes and single-op insert/remove histories. Ops have 1..3 pairwise distinct variables (3 spills the SmallVec), diagonal or "
         "offdiagonal, random bond/in/out/constant flag. Generation stays inside the valid domain (what the Rust debug_asserts / unwraps "
-        "demand); five excluded points (self-loop op, zero-variable op, Varlist cursor without hint, removal inside mutate_ops, "
-        "mutate_ps starting at the array length) are run once as probes and documented as STAT lines. After EVERY mutation the harness "
+        "demand); six excluded points (self-loop op, zero-variable op, Varlist cursor without hint, removal inside mutate_ops, "
+        "mutate_ps starting at the array length, fill_args_at_p_with_hint beyond the array length) are run once as probes and documented as STAT lines. After EVERY mutation the harness "
         "prints the contents, the serde snapshot of all private pointers (n, p_ends, var_ends, bond_counters, per node previous/next and "
         "per-variable links), every public getter (get_n, first/last p, get_count(0..8), per-variable first/last/has, node links through "
         "the LoopUpdater getters, get_nth_p(0..n)) and fill_args_at_p cursors at 0..5 query positions; the model must reproduce all 12 "
